@@ -92,8 +92,17 @@ def compile_ir(ctx, ob, tcfg):
     return ll
 
 
+import threading
+_BUILD_LOCK = threading.Lock()
+
+
 def build_native(ctx, ob, tcfg):
-    """native replay binary: the same harness against the real code, ASan"""
+    """native replay binary: the same harness against the real code, ASan (serialised: instances share it)"""
+    with _BUILD_LOCK:
+        return _build_native(ctx, ob, tcfg)
+
+
+def _build_native(ctx, ob, tcfg):
     defs = dict(tcfg.get("defs", {}))
     key = (ob["harness"], ob["entry"], tuple(sorted(defs.items())))
     if key in ctx.native_cache:
@@ -236,25 +245,34 @@ def outcome(rc, out):
     return st, obs
 
 
+def build_concrete(ctx, ob, tcfg, cfile, entry):
+    """generated C (translated real code + models) built natively by gcc"""
+    exe_c = cfile[:-2] + ".concrete"
+    with _BUILD_LOCK:
+        if os.path.exists(exe_c):
+            return exe_c
+        cmd = ["gcc", "-O1", "-w", "-I", os.path.join(ROOT, "models"), "-DVERIF_MAIN=verif_main_" + entry, cfile,
+               os.path.join(ROOT, "models", "models.c")] + [os.path.join(ROOT, "models", m) for m in ob.get("models", [])] + ["-o", exe_c, "-lm"]
+        rc, out, dt, to = run(cmd, timeout=600)
+        if rc != 0 and "undefined reference" in out:
+            # functions that are referenced but never reached symbolically (CBMC reports an unmodelled *reachable*
+            # callee as an error): give the concrete build aborting definitions so it links
+            missing = sorted(set(re.findall(r"undefined reference to `([A-Za-z_0-9]+)'", out)))
+            stub = exe_c + ".missing.c"
+            with open(stub, "w") as f:
+                f.write("#include <stdio.h>\n#include <stdlib.h>\n")
+                for m in missing:
+                    f.write("void %s(void) { printf(\"UNMODELLED-CALL %s\\n\"); exit(4); }\n" % (m, m))
+            rc, out, dt, to = run(cmd + [stub], timeout=600)
+        if rc != 0:
+            raise Inconclusive("gcc build of generated C failed for %s:\n%s" % (ob["id"], out[-3000:]))
+    return exe_c
+
+
 def validate_translation(ctx, ob, tcfg, cfile, entry, nvec, insts):
     """generated C (gcc) vs native harness (g++, real code) on concrete vectors"""
     exe_n = build_native(ctx, ob, tcfg)
-    exe_c = cfile[:-2] + ".concrete"
-    cmd = ["gcc", "-O1", "-w", "-I", os.path.join(ROOT, "models"), "-DVERIF_MAIN=verif_main_" + entry, cfile,
-           os.path.join(ROOT, "models", "models.c")] + [os.path.join(ROOT, "models", m) for m in ob.get("models", [])] + ["-o", exe_c, "-lm"]
-    rc, out, dt, to = run(cmd, timeout=600)
-    if rc != 0 and "undefined reference" in out:
-        # functions that are referenced but never reached symbolically (CBMC reports an unmodelled *reachable*
-        # callee as an error): give the concrete build aborting definitions so it links
-        missing = sorted(set(re.findall(r"undefined reference to `([A-Za-z_0-9]+)'", out)))
-        stub = exe_c + ".missing.c"
-        with open(stub, "w") as f:
-            f.write("#include <stdio.h>\n#include <stdlib.h>\n")
-            for m in missing:
-                f.write("void %s(void) { printf(\"UNMODELLED-CALL %s\\n\"); exit(4); }\n" % (m, m))
-        rc, out, dt, to = run(cmd + [stub], timeout=600)
-    if rc != 0:
-        raise Inconclusive("gcc build of generated C failed for %s:\n%s" % (ob["id"], out[-3000:]))
+    exe_c = build_concrete(ctx, ob, tcfg, cfile, entry)
     agree = 0
     nontrivial = 0
     mism = []
@@ -374,7 +392,12 @@ def run_instance(ctx, ob, res, params):
             if to:
                 raise Inconclusive("cbmc timeout while producing the trace for %s" % ob["id"])
             inputs = extract_inputs(tout, first["id"])
-            exe = build_native(ctx, ob, tcfg)
+            if ob.get("replay") == "generated":
+                # the obligation replaces library classes by a model, so the native build cannot show the
+                # failure; the counterexample is replayed on the gcc build of the translated real code + model
+                exe = build_concrete(ctx, ob, tcfg, cfile, entry)
+            else:
+                exe = build_native(ctx, ob, tcfg)
             env = dict(os.environ, VERIF_PARAMS=",".join(str(x) for x in params))
             rcn, nout, _, ton = run([exe], timeout=60, stdin="\n".join(str(x) for x in inputs) + "\n", env=env)
             st, obs = outcome(rcn, nout)
@@ -480,7 +503,14 @@ def do_replay(a, scratch):
     ctx = Ctx(prop, r.get("tier", "quick"), scratch, 1, a.keep)
     tcfg = dict(ob["tiers"].get(ctx.tier) or ob["tiers"]["quick"])
     tcfg["defs"] = r.get("defs", {})
-    exe = build_native(ctx, ob, tcfg)
+    if ob.get("replay") == "generated":
+        res = prepare(ctx, ob)
+        if res["status"] != "?":
+            print(res.get("note", ""))
+            return 2
+        exe = build_concrete(ctx, ob, tcfg, res["cfile"], ob["entry"])
+    else:
+        exe = build_native(ctx, ob, tcfg)
     env = dict(os.environ, VERIF_PARAMS=",".join(str(x) for x in r.get("params", [])))
     rc, out, _, _ = run([exe], timeout=60, stdin="\n".join(str(x) for x in r["inputs"]) + "\n", env=env)
     st, obs = outcome(rc, out)
